@@ -29,15 +29,22 @@ def obligations(tier):
     L = []
     only = os.environ.get("C18_ONLY", "")
     # ---- hist: A = any call kind, any of the option sets {1,4,7,0}, on templates that end on every kind of exit
-    TA = ['{"?":1,"?":2}', '{"?":{"?":', '[{"?":1},', '???'] + ([] if q else ['{"?":[{"?":1}],"?":{}}', '[{"?":1,"?":{', '????', '{"?":1}?'])
-    TB = [(ISVALID, 0, '{"?":1,"?":2}'), (FORMAT, 0, '{"?":1,"?":2}'), (FORMAT, 3, '[{"?":1}]'), (CANON, 0, '{"?":2,"?":1}'),
-          (APPEND, 5, '???'), (DECLOOP, 0, '{"?":{"?":'), (ENCLOOP, 0, '{"?":1,"?":2}'), (INDENT, 0, '[?,?]'), (STREAMDEC, 0, '{"?":?}')]
+    LONG = '@names66@"?":0}'      # 67 members: the namespace switches to its map representation
+    DEEP = '@deep1100@{"?":'      # error exit 1101 objects deep: stacks beyond the sizes that reset keeps
+    TA = ['{"?":1,"?":2}', '{"?":{"?":', '[{"?":1},', '??', LONG] + ([] if q else ['???', '{"?":[{"?":1}],"?":{}}', '[{"?":1,"?":{', '{"?":1}?', DEEP])
+    TB = [(ISVALID, 0, '{"?":1,"?":2}'), (FORMAT, 0, '{"a?":1,"?":2}'), (FORMAT, 3, '[{"?":1}]'), (CANON, 0, '{"?":2,"?":1}'),
+          (APPEND, 5, '??'), (DECLOOP, 0, '{"?":{"?":'), (ENCLOOP, 0, '{"?":1,"a?":2}'), (INDENT, 0, '[?,?]'), (STREAMDEC, 0, '{"a?":?}')]
     if not q:
         TB += [(COMPACT, 0, ' ? ?'), (APPENDSTR, 6, '"?",?'), (ISVALID, 2, '???'), (FORMAT, 4, '{"?":[?]}'), (CANON, 1, '{"?":1,"?":{"?":1}}'),
-               (DECLOOP, 1, '[{"?":1},'), (ENCLOOP, 3, '[{"?":?'), (ISVALID, 0, '????'), (FORMAT, 0, '????')]
+               (DECLOOP, 1, '[{"?":1},'), (ENCLOOP, 3, '[{"?":?'), (ISVALID, 0, '{"a?":1}'), (FORMAT, 0, '???'), (APPEND, 0, '{"a?":{"a?":1}}')]
     for tb in TB:
         for ta in TA:
-            hist(L, (ANY, ANY, ta), tb)
+            if ta == '???' and tb[2].count('?') >= 3:
+                continue
+            hist(L, (ANY, ANY, ta), tb, step_limit=50_000_000)
+    # ---- buffer statistics of the pooled encoder: big result, then k small ones
+    for (opB, optB, tB) in ([(FORMAT, 3, '[?]')] if q else [(FORMAT, 3, '[?]'), (APPEND, 0, '{"?":?}'), (CANON, 0, '{"?":1,"?":2}')]):
+        L.append(ob("strikes/levels=1100/k=7/B=%s,o%d,%s" % (NAMES[opB], optB, tB), P, "VerifC18Strikes", [1100, 7, opB, optB, tB], step_limit=50_000_000, covers=["end", "buffer-was-discarded"]))
     # ---- hist3: two earlier calls of any kind / option set
     for (opB, optB, tB) in ([(ISVALID, 0, '{"?":1}'), (FORMAT, 3, '[?]')] if q else [(ISVALID, 0, '{"?":1}'), (FORMAT, 3, '[?]'), (CANON, 0, '{"?":1}'), (DECLOOP, 0, '{"?":')]):
         for (t1, t2) in ([('{"?":', '[?')] if q else [('{"?":', '[?'), ('{"?":1}', '{"?":{'), ('??', '{"?":1,')]):
